@@ -235,6 +235,24 @@ def r02_3(ctx):
         tc = C.role(ctx, "text_cleaner")
         ok = tc is not None and ("%s(jsx_text.value)" % tc["name"]) in t and ("if text.is_empty() None else Some(Call(" in t or "!text.is_empty().then(|| Call(" in t or "if !text.is_empty() Some(Call(" in t) and "'createTextVNode'" in t and "value: text" in t
         r.ob("text child: cleaned; empty -> nothing; otherwise createTextVNode(<cleaned>)", ok, C.mloc(tf, tf), t[:160])
+        # ... on every path: the text that becomes the vnode is the cleaner's result itself, not a choice between it and the source text
+        idx_tf = HirIndex(tf)
+        for x in idx_tf.nodes:
+            if x.get("k") == "Struct" and x.get("adt") == AST + "Str":
+                v = strip_transparent({f["name"]: f["e"] for f in x["fields"]}.get("value", {}))
+                lo = local_of(v)
+                bd = idx_tf.binding.get(lo[1]) if lo else None
+                src = strip_transparent(bd["init"]) if bd and bd.get("init") is not None else v
+                direct = tc is not None and src.get("k") == "Call" and src.get("callee") == tc["path"]
+                r.ob("the text vnode's string is the cleaner's result on every path", direct, C.mloc(tf, x),
+                     "%s(..)" % (tc["name"] if tc else "?") if direct else "the string is `%s`: some texts bypass the cleaning" % expr_str(src)[:70])
+    # an expression child is passed through as written, whatever the expression is
+    for a in table["arms"]:
+        if "JSXExprContainer(" in pat_str(a["pat"]) and "expr: Expr(" in pat_str(a["pat"]).replace("JSXExpr(", "Expr("):
+            bad = [x for x in walk(a["body"]) if x.get("k") == "Ret"] + \
+                  [x for x in walk(a["body"]) if x.get("k") in ("Call", "MethodCall") and tf is not None and (x.get("callee") == tf["path"] or (tc is not None and x.get("callee") == tc["path"]))]
+            r.ob("an expression child never becomes JSX text", not bad, C.mloc(ch, bad[0]) if bad else C.mloc(ch, a),
+                 "passed through" if not bad else "this arm has an early exit / calls the text lowering: some expression children are rewritten instead of passed through")
     return r
 
 
